@@ -41,8 +41,27 @@ fn build_out(b: &QRBuilder) -> Value {
     }
 }
 
-/// One exported history on two builders; builds run on worker threads, overlapping exactly as the history says.
-fn run_history(sink: &mut Sink, grp: u64, hist: &[Value]) {
+type Job = (Arc<RwLock<QRBuilder>>, mpsc::Sender<()>, mpsc::Sender<Value>);
+
+/// Worker threads that live for the whole scenario: thread t of the model is always the same OS thread, so state a build
+/// leaves behind on its thread (thread-locals, per-thread scratch) is carried into the next build of that thread.
+pub struct Workers { tx: Vec<mpsc::Sender<Job>> }
+impl Workers {
+    pub fn new(n: usize) -> Workers {
+        let mut tx = Vec::new();
+        for _ in 0..n {
+            let (jtx, jrx) = mpsc::channel::<Job>();
+            std::thread::Builder::new().stack_size(16 << 20).spawn(move || {
+                for (b, go, out) in jrx { let g = b.read().unwrap(); let _ = go.send(()); let _ = out.send(build_out(&g)); }
+            }).expect("worker thread");
+            tx.push(jtx);
+        }
+        Workers { tx }
+    }
+}
+
+/// One exported history on two builders; builds run on the worker threads, overlapping exactly as the history says.
+fn run_history(sink: &mut Sink, workers: &Workers, grp: u64, hist: &[Value]) {
     let builders: Vec<Arc<RwLock<QRBuilder>>> = INPUTS.iter().map(|i| Arc::new(RwLock::new(QRBuilder::new(i.to_vec())))).collect();
     let mut seq = 0u64;
     for (i, inp) in INPUTS.iter().enumerate() {
@@ -62,10 +81,9 @@ fn run_history(sink: &mut Sink, grp: u64, hist: &[Value]) {
             }
             "build_start" => {
                 let (tx, rx) = mpsc::channel();
-                let bb = builders[b as usize - 1].clone();
                 let (go_tx, go_rx) = mpsc::channel::<()>();
-                std::thread::spawn(move || { let g = bb.read().unwrap(); let _ = go_tx.send(()); let _ = tx.send(build_out(&g)); });
-                let _ = go_rx.recv();          // the worker holds the read lock: the build is in flight
+                let _ = workers.tx[(t as usize - 1) % workers.tx.len()].send((builders[b as usize - 1].clone(), go_tx, tx));
+                let _ = go_rx.recv_timeout(std::time::Duration::from_secs(60));   // the worker holds the read lock: the build is in flight
                 inflight.insert(t, (b, rx));
             }
             "build_end" => {
@@ -82,9 +100,10 @@ fn run_history(sink: &mut Sink, grp: u64, hist: &[Value]) {
 
 pub fn histories(sink: &mut Sink, behaviours: &str, grp0: u64) {
     let mut grp = grp0;
+    let workers = Workers::new(2);
     for l in std::fs::read_to_string(behaviours).unwrap_or_default().lines() {
         let Ok(b) = serde_json::from_str::<Value>(l) else { continue };
-        if let Some(h) = b["hist"].as_array() { grp += 1; run_history(sink, grp, h); }
+        if let Some(h) = b["hist"].as_array() { grp += 1; run_history(sink, &workers, grp, h); }
     }
 }
 
